@@ -122,6 +122,9 @@ theorem sync_round_joins (H : Hasher) (hI : Ideal H) (le : Nat → Nat → Bool)
 def valv (c : Sim) (k : Nat) (i : Nat) : Option RV :=
   (c.nodes[i]?).bind (fun nd => (NMap.get nd.ps.sh.keys k).map RV.strip)
 
+theorem valv_of_get (c : Sim) (k i : Nat) (nd : SNode) (h : c.nodes[i]? = some nd) :
+    valv c k i = (NMap.get nd.ps.sh.keys k).map RV.strip := by simp [valv, h]
+
 /-- the join of the key's carrier, lifted to "no value yet" -/
 def oj : Option RV → Option RV → Option RV := optMerge RV.merge
 
@@ -347,6 +350,178 @@ theorem reach_keys_le {H : Hasher} {cfg : Cfg} {n : Nat} {causal : Bool} {c : Si
     rw [← hmk]; exact hU m hm
   have := List.Nodup.length_le_of_subset (keys_nodup hwf) hsub
   simpa [NMap.keys] using this
+
+/-! ## the pass -/
+
+theorem syncStep_issued (H : Hasher) (cfg : Cfg) (c : Sim) (a b : Nat) :
+    (Sim.syncStep H cfg c a b).issued = c.issued ∧ (Sim.syncStep H cfg c a b).parts = c.parts := by
+  unfold Sim.syncStep
+  split
+  · split <;> exact ⟨rfl, rfl⟩
+  · exact ⟨rfl, rfl⟩
+
+/-- **one `run_anti_entropy_sync` of the cluster is, key by key, one exchange in the key's
+    join-semilattice** — collision-free hash, `max_keys_per_sync` at least the number of keys ever
+    written (`U`: any list that contains them) -/
+theorem sync_step_xch (H : Hasher) (hI : Ideal H) (cfg : Cfg) (n : Nat) (causal : Bool) (c : Sim)
+    (hr : Reach H cfg n causal c) (U : List Nat) (hU : ∀ m ∈ c.issued, m.key ∈ U)
+    (hlen : U.length ≤ effectiveLimit currentLimitAtLeastOne cfg.limit)
+    (a b : Nat) (hab : a ≠ b) (ha : a < n) (hb : b < n) (k : Nat) :
+    valv (Sim.syncStep H cfg c a b) k = Flow.xch oj (valv c k) a b := by
+  have hn := reach_length hr
+  have halt : a < c.nodes.length := by omega
+  have hblt : b < c.nodes.length := by omega
+  have hna : c.nodes[a]? = some c.nodes[a] := List.getElem?_eq_getElem halt
+  have hnb : c.nodes[b]? = some c.nodes[b] := List.getElem?_eq_getElem hblt
+  obtain ⟨na', nb', h1, h2, h3, h4⟩ := syncStep_nodes H cfg c a b hab _ _ hna hnb
+  obtain ⟨hwA, hvA⟩ := reach_wf hr a _ hna
+  obtain ⟨hwB, hvB⟩ := reach_wf hr b _ hnb
+  have hj := sync_round_joins H hI Sim.keyLe (effectiveDepth currentDepthBound cfg.depth)
+    (effectiveLimit currentLimitAtLeastOne cfg.limit) _ _ hwA hwB hvA hvB
+    (Nat.le_trans (reach_keys_le hr U hU a _ hna) hlen) (Nat.le_trans (reach_keys_le hr U hU b _ hnb) hlen) k
+  rw [← h4] at hj
+  simp only at hj
+  obtain ⟨hR, hcar, _⟩ := reach_carrier hr k
+  have hva := valv_of_get c k a _ hna
+  have hvb := valv_of_get c k b _ hnb
+  funext i
+  simp only [Flow.xch]
+  by_cases hia : i = a
+  · subst hia
+    simp only [true_or, if_true]
+    rw [valv_of_get _ k _ _ h1, hj.1, strip_optMerge, ← hva, ← hvb]
+  · by_cases hib : i = b
+    · subst hib
+      simp only [or_true, if_true]
+      rw [valv_of_get _ k _ _ h2, hj.2, strip_optMerge, ← hva, ← hvb]
+      exact (aci_opt 0 _ hR).comm _ _ (hcar i) (hcar a)
+    · have : ¬ (i = a ∨ i = b) := fun h => h.elim hia hib
+      simp only [this, if_false]
+      simp only [valv, h3 i hia hib]
+
+theorem run_syncs_valv (H : Hasher) (hI : Ideal H) (cfg : Cfg) (n : Nat) (causal : Bool) (U : List Nat)
+    (hlen : U.length ≤ effectiveLimit currentLimitAtLeastOne cfg.limit) (k : Nat) (ps : List (Nat × Nat))
+    (hps : ∀ p ∈ ps, p.1 < n ∧ p.2 < n ∧ p.1 ≠ p.2) : ∀ (c : Sim), Reach H cfg n causal c →
+    (∀ m ∈ c.issued, m.key ∈ U) →
+    valv (c.run H cfg (ps.map (fun p => SEv.sync p.1 p.2))) k = Flow.pass oj (valv c k) ps ∧
+    (c.run H cfg (ps.map (fun p => SEv.sync p.1 p.2))).issued = c.issued := by
+  induction ps with
+  | nil => intro c _ _; exact ⟨rfl, rfl⟩
+  | cons p ps ih =>
+    intro c hr hU
+    have hp := hps p (by simp)
+    have hstep : c.step H cfg (SEv.sync p.1 p.2) = Sim.syncStep H cfg c p.1 p.2 := rfl
+    have hr1 : Reach H cfg n causal (Sim.syncStep H cfg c p.1 p.2) := by
+      have := reach_run hr [SEv.sync p.1 p.2]
+      simpa [Sim.run, hstep] using this
+    have hiss := (syncStep_issued H cfg c p.1 p.2).1
+    obtain ⟨e1, e2⟩ := ih (fun q hq => hps q (List.mem_cons_of_mem _ hq)) _ hr1 (by rw [hiss]; exact hU)
+    simp only [List.map_cons, Sim.run, List.foldl_cons, Flow.pass] at e1 e2 ⊢
+    rw [hstep]
+    refine ⟨?_, by rw [e2, hiss]⟩
+    rw [e1, sync_step_xch H hI cfg n causal c hr U hU hlen p.1 p.2 hp.2.2 hp.1 hp.2.1 k]
+
+/-- **C06 ∘ C18 (anti-entropy repairs whatever was lost)**: the simulator cluster in ANY reachable
+    state — after any client writes on any nodes, any gossip rounds with any loss and delay, any
+    partitions and heals, any earlier exchanges — followed by pairwise `run_anti_entropy_sync`s
+    whose knowledge flow is complete (`Flow.FlowComplete`, decidable): every node holds the same
+    content and stamp for every key.  Hypotheses: a collision-free hash (`Ideal`, as in C18) and
+    `max_keys_per_sync` at least the number of keys ever written. -/
+theorem anti_entropy_pass_converges (H : Hasher) (hI : Ideal H) (cfg : Cfg) (n : Nat) (causal : Bool) (c : Sim)
+    (hr : Reach H cfg n causal c) (U : List Nat) (hU : ∀ m ∈ c.issued, m.key ∈ U)
+    (hlen : U.length ≤ effectiveLimit currentLimitAtLeastOne cfg.limit)
+    (ps : List (Nat × Nat)) (hne : ∀ p ∈ ps, p.1 ≠ p.2) (hf : Flow.FlowComplete n ps) (k : Nat) :
+    Agree (c.run H cfg (ps.map (fun p => SEv.sync p.1 p.2))).abs.base k := by
+  have hps : ∀ p ∈ ps, p.1 < n ∧ p.2 < n ∧ p.1 ≠ p.2 := fun p hp => ⟨(hf.1 p hp).1, (hf.1 p hp).2, hne p hp⟩
+  obtain ⟨hv, _⟩ := run_syncs_valv H hI cfg n causal U hlen k ps hps c hr hU
+  obtain ⟨hR, hcar, _⟩ := reach_carrier hr k
+  have hagree := Flow.flow_agree (aci_opt 0 _ hR) n (valv c k) (fun i _ => hcar i) ps hf
+  have hlenN := reach_length (reach_run hr (ps.map (fun p => SEv.sync p.1 p.2)))
+  intro i j si sj hsi hsj
+  have hil : i < n := by
+    have := (List.getElem?_eq_some_iff.mp hsi).1
+    simpa [Sim.abs, hlenN] using this
+  have hjl : j < n := by
+    have := (List.getElem?_eq_some_iff.mp hsj).1
+    simpa [Sim.abs, hlenN] using this
+  have e := hagree i j hil hjl
+  rw [← hv] at e
+  have tr : ∀ (x : Nat) (s : Shard), (c.run H cfg (ps.map (fun p => SEv.sync p.1 p.2))).abs.base.nodes[x]? = some s →
+      valv (c.run H cfg (ps.map (fun p => SEv.sync p.1 p.2))) k x = (NMap.get s.keys k).map RV.strip := by
+    intro x s hs
+    simp only [Sim.abs, List.getElem?_map] at hs
+    simp only [valv]
+    cases hx : (c.run H cfg (ps.map (fun p => SEv.sync p.1 p.2))).nodes[x]? with
+    | none => rw [hx] at hs; cases hs
+    | some nd =>
+      rw [hx] at hs
+      simp only [Option.map_some, Option.some.injEq] at hs
+      rw [← hs]; rfl
+  rw [← tr i si hsi, ← tr j sj hsj]
+  exact e
+
+theorem fullSync_eq_syncs (H : Hasher) (cfg : Cfg) (ps : List (Nat × Nat)) : ∀ (c : Sim), c.parts = [] →
+    ps.foldl (fun c p => if Sim.canComm c.parts p.1 p.2 then Sim.syncStep H cfg c p.1 p.2 else c) c
+      = c.run H cfg (ps.map (fun p => SEv.sync p.1 p.2)) := by
+  induction ps with
+  | nil => intro c _; rfl
+  | cons p ps ih =>
+    intro c hp
+    simp only [List.foldl_cons, List.map_cons, Sim.run]
+    have hc : Sim.canComm c.parts p.1 p.2 = true := by rw [hp]; rfl
+    simp only [hc, if_true]
+    have := ih (Sim.syncStep H cfg c p.1 p.2) (by rw [(syncStep_issued H cfg c p.1 p.2).2]; exact hp)
+    simp only [Sim.run] at this
+    rw [this]
+    rfl
+
+theorem allPairs_ne (n : Nat) : ∀ p ∈ Sim.allPairs n, p.1 < n ∧ p.2 < n ∧ p.1 ≠ p.2 := by
+  intro p hp
+  simp only [Sim.allPairs, List.mem_flatMap, List.mem_map, List.mem_range, List.mem_range'_1] at hp
+  obtain ⟨i, hi, j, hj, rfl⟩ := hp
+  simp only
+  omega
+
+/-- **`run_full_anti_entropy` on a cluster without partitions: ONE pass and every node holds the
+    same value for every key — for every cluster size, after any history** -/
+theorem full_anti_entropy_converges (H : Hasher) (hI : Ideal H) (cfg : Cfg) (n : Nat) (causal : Bool) (c : Sim)
+    (hr : Reach H cfg n causal c) (hparts : c.parts = []) (U : List Nat) (hU : ∀ m ∈ c.issued, m.key ∈ U)
+    (hlen : U.length ≤ effectiveLimit currentLimitAtLeastOne cfg.limit) (k : Nat) :
+    Agree (c.step H cfg .fullSync).abs.base k := by
+  have hn := reach_length hr
+  have hst : c.step H cfg .fullSync = c.run H cfg ((Sim.allPairs n).map (fun p => SEv.sync p.1 p.2)) := by
+    simp only [Sim.step, hn]
+    exact fullSync_eq_syncs H cfg _ c hparts
+  rw [hst]
+  have hps := allPairs_ne n
+  obtain ⟨hv, _⟩ := run_syncs_valv H hI cfg n causal U hlen k _ hps c hr hU
+  obtain ⟨hR, hcar, _⟩ := reach_carrier hr k
+  have hagree := Flow.allPairs_agree (aci_opt 0 _ hR) n (valv c k) (fun i _ => hcar i)
+  have hlenN := reach_length (reach_run hr ((Sim.allPairs n).map (fun p => SEv.sync p.1 p.2)))
+  intro i j si sj hsi hsj
+  have hil : i < n := by
+    have := (List.getElem?_eq_some_iff.mp hsi).1
+    simpa [Sim.abs, hlenN] using this
+  have hjl : j < n := by
+    have := (List.getElem?_eq_some_iff.mp hsj).1
+    simpa [Sim.abs, hlenN] using this
+  have e := hagree i j hil hjl
+  have hap : Flow.allPairs n = Sim.allPairs n := rfl
+  rw [hap, ← hv] at e
+  have tr : ∀ (x : Nat) (s : Shard),
+      (c.run H cfg ((Sim.allPairs n).map (fun p => SEv.sync p.1 p.2))).abs.base.nodes[x]? = some s →
+      valv (c.run H cfg ((Sim.allPairs n).map (fun p => SEv.sync p.1 p.2))) k x = (NMap.get s.keys k).map RV.strip := by
+    intro x s hs
+    simp only [Sim.abs, List.getElem?_map] at hs
+    simp only [valv]
+    cases hx : (c.run H cfg ((Sim.allPairs n).map (fun p => SEv.sync p.1 p.2))).nodes[x]? with
+    | none => rw [hx] at hs; cases hs
+    | some nd =>
+      rw [hx] at hs
+      simp only [Option.map_some, Option.some.injEq] at hs
+      rw [← hs]; rfl
+  rw [← tr i si hsi, ← tr j sj hsj]
+  exact e
 
 end C06
 end RedisVerif
